@@ -898,6 +898,7 @@ pub fn check(cfg: &Cfg) -> Result<i32, Harness> {
     for (i, p) in preps.into_iter().enumerate() {
         let (p, t) = p?;
         tally.merge(&t);
+        record_digest(i as u64 * 100_000, p.base.digest());
         tally.add("fault_free_runs");
         for t in &p.tags {
             tally.add(t.clone());
@@ -969,6 +970,17 @@ pub fn check(cfg: &Cfg) -> Result<i32, Harness> {
             case.stratum = stratum.clone();
             let w = case.world_with(case.argv(true, None), case.faults.clone());
             let h = wk.run(&w)?;
+            record_digest(*run, h.digest());
+            if std::env::var("VF_TRACE_DUMP").ok().and_then(|s| s.parse::<u64>().ok()) == Some(*run) {
+                eprintln!("DUMP argv={:?} faults={:?}", w.argv, w.faults);
+                for o in &h.ops {
+                    eprintln!("DUMP {:?} {} ret={} inj={:?}", o.seq, o.sig(), o.ret, o.injected);
+                }
+                eprintln!("DUMP exit={:?} stdout={:?} stderr={:?}", h.exit, String::from_utf8_lossy(&h.stdout.0), String::from_utf8_lossy(&h.stderr.0));
+                for (p, f) in &h.files_after {
+                    eprintln!("DUMP file {p} {:?} {} {:o}", f.kind, f.bytes.0.len(), f.mode);
+                }
+            }
             let mut tally = Tally::default();
             let mut triples = BTreeSet::new();
             tally.add(format!("runs:{stratum}"));
